@@ -895,6 +895,7 @@ def _propagate_name_copies(tree: ast.Module) -> bool:
             elif isinstance(n, ast.AnnAssign) and isinstance(n.target, ast.Name) and n.value is not None:
                 plain_assigned.setdefault(n.target.id, []).append(n)
         copies = {}
+        renames_early: dict = {}
         for st in own:
             if not (isinstance(st, ast.Assign) and len(st.targets) == 1 and isinstance(st.targets[0], ast.Name) and isinstance(st.value, ast.Name)):
                 continue
@@ -902,6 +903,16 @@ def _propagate_name_copies(tree: ast.Module) -> bool:
             if v == w or v in params or v in declared or w in declared or v in nested_bound or w in nested_bound:
                 continue
             if stores.get(v) != 1:
+                # v is rebound later, but it only comes into being here, from a synthetic
+                # temporary that is not looked at again: the temporary was v all along
+                if _SYNTHETIC.match(w) and not _SYNTHETIC.match(v) and id(st) not in in_loop and w not in params and st in fn.body:
+                    k_ = fn.body.index(st)
+                    before = {id(x) for b in fn.body[:k_] for x in ast.walk(b)}
+                    after = {id(x) for b in fn.body[k_ + 1 :] for x in ast.walk(b)}
+                    v_occ = [x for x in ast.walk(fn) if isinstance(x, ast.Name) and x.id == v and x is not st.targets[0]]
+                    w_occ = [x for x in ast.walk(fn) if isinstance(x, ast.Name) and x.id == w and x is not st.value]
+                    if all(id(x) in after for x in v_occ) and all(id(x) in before for x in w_occ) and not any(isinstance(x, ast.arg) and x.arg in (v, w) for sub in nested for x in ast.walk(sub)):
+                        renames_early[w] = (v, st)
                 continue
             if id(st) in in_loop:
                 # inside a loop: good for the rest of the iteration when w is (re)bound earlier
@@ -923,6 +934,18 @@ def _propagate_name_copies(tree: ast.Module) -> bool:
             if w in copies or v in {c for c, _s in copies.values()}:
                 continue  # chains are resolved in the next round
             copies[v] = (w, st)
+        if renames_early and not copies:
+            w, (v, st) = next(iter(renames_early.items()))
+
+            class RE(ast.NodeTransformer):
+                def visit_Name(self, node):
+                    if node.id == w:
+                        return ast.copy_location(ast.Name(id=v, ctx=node.ctx), node)
+                    return node
+
+            fn.body = [RE().visit(b) for b in fn.body if b is not st]
+            changed = True
+            continue
         if not copies:
             continue
 
@@ -1091,6 +1114,14 @@ def _flatten_star_tuples(tree: ast.Module) -> bool:
                 else:
                     new.append(a)
             n.args = new
+        # `getattr(x, "name")` (two arguments, literal identifier) is `x.name`
+        if isinstance(n, ast.Call) and isinstance(n.func, ast.Name) and n.func.id == "getattr" and len(n.args) == 2 and not n.keywords and isinstance(n.args[1], ast.Constant) and isinstance(n.args[1].value, str) and n.args[1].value.isidentifier() and not n.args[1].value.startswith("__"):
+            n.__class__ = ast.Attribute
+            n.value, n.attr, n.ctx = n.args[0], n.args[1].value, ast.Load()
+            del n.func, n.args, n.keywords
+            n._fields = ast.Attribute._fields
+            changed = True
+            continue
         # `f(**{"k": v})` -> `f(k=v)`, `f(**{})` -> `f()`
         if isinstance(n, ast.Call) and any(k.arg is None and isinstance(k.value, ast.Dict) and all(isinstance(x, ast.Constant) and isinstance(x.value, str) and x.value.isidentifier() for x in k.value.keys) for k in n.keywords):
             newk = []
